@@ -36,12 +36,7 @@ Theorem C05_cnv_is_truncated_bivariate_product :
   lim (cnv_apply fft n rsz cnv_offset A B) k =
   psumf n (fun i => psumf n (fun j =>
      if Nat.eqb (i + j) (k + cnv_offset) then pmul (lim A i) (lim B j) else pzero n) pbsz) pasz.
-Proof.
-  intros fft n rsz off pasz pbsz ma mb a b k wa wb Ha Hb Hk A B.
-  pose proof (cnv_apply_spec fft n rsz off A B k) as H. unfold bivariate_coeff in H.
-  subst A B. rewrite !cnv_prepare_length in H. apply H; try assumption; try (rewrite cnv_prepare_length; assumption);
-    apply cnv_prepare_wfl; assumption.
-Qed.
+Proof. exact cnv_is_truncated_bivariate_product. Qed.
 Print Assumptions C05_cnv_is_truncated_bivariate_product.
 
 (* the same for arbitrary (already prepared) operands *)
@@ -319,14 +314,7 @@ Theorem C05_mul_plain_phase :
   padd (padd (plsum n (map (fun q => pmul (pval n (P + lo) ab (Cf (fst q))) (snd q)) (combine A key)))
              (plsum n (map (fun q => pmul (eps (Cf (fst q))) (snd q)) (combine A key))))
        (pscale (2 ^ P) (plsum n (map (fun q => pmul (kap (Cf (fst q))) (snd q)) (combine A key)))).
-Proof.
-  intros fft n rsz dsz hi P rb ab lo nrm eps kap dom B Hs Hv wB LB A key HA Hk Cf.
-  apply (column_phase n rsz dsz P rb ab lo nrm eps kap dom Cf Hs Hv A key); [|exact Hk].
-  intros a Ha. destruct (HA a Ha) as (wa & La & da). subst Cf. cbv beta. repeat split.
-  - apply cnv_apply_wfl; assumption.
-  - apply cnv_apply_length.
-  - exact da.
-Qed.
+Proof. exact mul_plain_phase. Qed.
 Print Assumptions C05_mul_plain_phase.
 
 Theorem C05_mul_const_phase :
@@ -345,12 +333,7 @@ Theorem C05_mul_const_phase :
   padd (padd (plsum n (map (fun q => pmul (pval n (P + lo) ab (Cf (fst q))) (snd q)) (combine A key)))
              (plsum n (map (fun q => pmul (eps (Cf (fst q))) (snd q)) (combine A key))))
        (pscale (2 ^ P) (plsum n (map (fun q => pmul (kap (Cf (fst q))) (snd q)) (combine A key)))).
-Proof.
-  intros fft n rsz dsz hi P rb ab lo nrm eps kap dom b Hs Hv Lb A key HA Hk Cf.
-  apply (column_phase n rsz dsz P rb ab lo nrm eps kap dom Cf Hs Hv A key); [|exact Hk].
-  intros a Ha. destruct (HA a Ha) as (wa & La & da). subst Cf. cbv beta.
-  destruct (cnv_by_const_wfl fft n dsz hi a b wa La Lb) as [w L]. repeat split; assumption.
-Qed.
+Proof. exact mul_const_phase. Qed.
 Print Assumptions C05_mul_const_phase.
 
 (* the model's glwe_mul_plain is that column loop *)
